@@ -132,8 +132,8 @@ def split_clauses(lines):
             counters[kw] = counters.get(kw, 0) + 1
             name = pending_name or f"{kw}#{counters[kw]}"
             out.append((kw, name, cur))
+            pending_name = None
         cur = []
-        pending_name = None
 
     for text, ln in lines:
         t = text.strip()
